@@ -174,7 +174,12 @@ func (cc *ConnectControl) checkBan(req *mqttprot.Request) bool {
 // Handle handles context.
 func (cc *ConnectControl) Handle(ctx *context.Context) string {
 	req := ctx.GetInputRequest().(*mqttprot.Request)
-	resp := ctx.GetOutputResponse().(*mqttprot.Response)
+	resp, ok := ctx.GetOutputResponse().(*mqttprot.Response)
+	if !ok {
+		// the namespace of this flow node has no MQTT response yet
+		resp = mqttprot.NewResponse()
+		ctx.SetOutputResponse(resp)
+	}
 	if req.PacketType() != mqttprot.PublishType {
 		return ""
 	}
